@@ -29,10 +29,11 @@ type Verdict struct {
 
 // Prop is one property stated as an executable check over generated cases.
 type Prop[C any] struct {
-	ID    string
-	Rule  string // generation + non-triviality rule, copied into the evidence
-	Gen   func(t *rapid.T) C
-	Check func(c C) Verdict
+	ID     string
+	Rule   string   // generation + non-triviality rule, copied into the evidence
+	Assume []string // what the check trusts, copied into the evidence
+	Gen    func(t *rapid.T) C
+	Check  func(c C) Verdict
 	// Enum enumerates a finite grid (optional). It must call yield for every
 	// cell; the runner applies sharding. exhaustive says whether the grid is
 	// the complete boundary cross product of the property's quantifier.
@@ -54,6 +55,8 @@ type findingsFile struct {
 
 type stats struct {
 	Property    string            `json:"property"`
+	Rule        string            `json:"rule"`
+	Assume      []string          `json:"assume"`
 	Evaluations int               `json:"evaluations"`
 	NonTrivial  []uint64          `json:"nontrivial"`
 	Classes     map[string]int    `json:"classes"`
@@ -229,6 +232,8 @@ func writeFail[C any](p *Prop[C], c C, text, sig string) string {
 // rapid (default), enum, replay (VERIF_REPLAY = file or directory).
 func Run[C any](t *testing.T, p *Prop[C]) {
 	st.Property = p.ID
+	st.Rule = p.Rule
+	st.Assume = p.Assume
 	loadFindings(p.ID)
 	switch os.Getenv("VERIF_MODE") {
 	case "replay":
